@@ -62,6 +62,7 @@ class Gen:
         self.quiet = set()        # tunnels that print nothing
         self.gather_labels = []   # labelled level-1 gathers: (full name, body of what follows the gather)
         self.label_bodies = {}
+        self.kparams = {}         # knot / tunnel / thread name -> parameter names
 
     # ------------------------------------------------------------------ helpers
     def has(self, f):
@@ -430,7 +431,20 @@ class Gen:
             return [{"k": "end"}], [ind + "-> END"]
         if t == "DONE":
             return [{"k": "done"}], [ind + "-> DONE"]
-        return [{"k": "div", "t": t}], [ind + "-> " + t]
+        args, at = self.knot_args(t)
+        return [{"k": "div", "t": t, "args": args}], [ind + "-> " + t + at]
+
+    def knot_args(self, t):
+        """the arguments for a divert / tunnel call / thread start into knot t: (asts, "(texts)")"""
+        ps = self.kparams.get(t, [])
+        if not ps:
+            return [], ""
+        args, texts = [], []
+        for _ in ps:
+            a, ta = self.expr(1)
+            args.append(a)
+            texts.append(ta)
+        return args, "(%s)" % ", ".join(texts)
 
     def flow_items(self, ind, n, level):
         """statements of a weave section without choices"""
@@ -464,7 +478,8 @@ class Gen:
                 # now and then the same tunnel several times in a row: with a tunnel that prints nothing, several visits
                 # of one container fall into a single look-ahead of the engine
                 reps = self.r.randint(2, 3) if self.p(0.9 if self.focus == "bursts" else 0.35) else 1
-                s, l = [{"k": "tun", "t": t}] * reps, ["%s-> %s ->" % (ind, t)] * reps
+                args, at = self.knot_args(t)
+                s, l = [{"k": "tun", "t": t, "args": args}] * reps, ["%s-> %s%s ->" % (ind, t, at)] * reps
             elif (k < 0.97 or self.focus == "threads") and k >= (0.7 if self.focus == "threads" else 0.92) \
                     and self.has("threads") and self.thread_names() and level == 1:
                 ts = [self.r.choice(self.thread_names())]
@@ -472,7 +487,8 @@ class Gen:
                     # two threads in a row: one leaves its choices behind, the other is still printing lines at the next
                     # line end - several live threads while an earlier thread's choice is pending
                     ts = self.r.sample(self.thread_names(), 2)
-                s, l = [{"k": "thr", "t": t} for t in ts], ["%s<- %s" % (ind, t) for t in ts]
+                tas = [(t,) + self.knot_args(t) for t in ts]
+                s, l = [{"k": "thr", "t": t, "args": a} for t, a, _ in tas], ["%s<- %s%s" % (ind, t, at) for t, _, at in tas]
             else:
                 s, l = self.line(ind)
             stmts += s
@@ -648,8 +664,9 @@ class Gen:
             # (choices or the end follow, no text): every visit has to be counted
             t = self.r.choice(quiet)
             reps = self.r.randint(2, 3)
-            stmts += [{"k": "tun", "t": t}] * reps
-            lines += ["-> %s ->" % t] * reps
+            args, at = self.knot_args(t)
+            stmts += [{"k": "tun", "t": t, "args": args}] * reps
+            lines += ["-> %s%s ->" % (t, at)] * reps
 
         def ending(ind):
             if kind == "tunnel":
@@ -766,6 +783,11 @@ class Gen:
             for n in names[1:]:
                 if self.p(0.35):
                     self.stitched[n] = ["%s.z%d" % (n, j) for j in range(2)]
+        if self.has("params"):
+            # parameters of knots, tunnels and threads (not of the entry knot, not of knots that consist of stitches)
+            for n in names[1:] + [x for x, _ in extra]:
+                if n not in self.stitched and self.p(0.5):
+                    self.kparams[n] = ["p%s_%d" % (n, j) for j in range(r.randint(1, 2))]
         src = ["VAR %s = %s" % (g["n"], lit(g["v"])) for g in self.globals]
         self.cur = ""
         root = self.body([{"k": "div", "t": "k0"}])
@@ -813,13 +835,14 @@ class Gen:
                                  "auto": False}
                 continue
             self.cur = n
-            self.temps = []
+            ps = self.kparams.get(n, [])
+            self.temps = list(ps)
             self.after_choice = False
             b = self.body()                     # reserve the number: the knot's body comes first
             stmts, lines = self.knot_body(self.kinds[n])
             self.bodies[b - 1] = stmts
-            self.knots[n] = {"body": b, "kind": self.kinds[n], "params": [], "chain": [n], "auto": False}
-            src.append("== %s ==" % n)
+            self.knots[n] = {"body": b, "kind": self.kinds[n], "params": ps, "chain": [n], "auto": False}
+            src.append("== %s%s ==" % (n, "(%s)" % ", ".join(ps) if ps else ""))
             src += lines
         src += fsrc
         prog = {"bodies": self.bodies, "knots": self.knots, "globals": self.globals, "root": root, "owner": self.owner,
